@@ -241,6 +241,31 @@ func init() {
 		}
 	}
 
+	// ---- restart-load-adapter: a Restart while the dispatcher of the run that ends is in the middle of its round, on an
+	// acknowledging adapter with two items pending and concurrency 2: the stale dispatcher and the new one may both
+	// dispatch; every delivery is still acknowledged once, afterwards, with its own id (C11, C01, C02)
+	for _, qk := range []QK{Pers, DistPrio} {
+		qk := qk
+		Register(&Scenario{
+			Name:  name("restart-load-adapter/%s", qk),
+			Props: []string{"C11", "C01", "C02", "C13"},
+			Mode:  "NB", Quick: 3, Thorough: 4, Shards: 16,
+			Body: func(h *H) {
+				w := h.NewWorker(Plain, 2)
+				q := w.Bind(qk, nil)
+				q.Add(0, AddOpt{WithID: true})
+				q.Add(1, AddOpt{WithID: true, Prio: 1})
+				go func() { w.Restart() }()
+				h.Quiesce(true)
+				h.crashCuts(q.Ad)
+				if len(q.Ad.unacked) != 0 || len(q.Ad.items) != 0 {
+					h.viol("C11", "C11.unacked-at-rest", fmt.Sprintf("at rest the adapter still holds %d pending and %d unacknowledged items", len(q.Ad.items), len(q.Ad.unacked)))
+				}
+				h.End()
+			},
+		})
+	}
+
 	// ---- errs-paused: a job that fails or panics after a lifecycle call switched the status is still offered on Errs()
 	// (C07: "a panic ... is offered on the error channel"); the buffer is free and nothing else fails
 	for _, kp := range []kindPair{{Plain, Fifo}, {ErrW, Fifo}, {ResW, Prio}} {
